@@ -209,7 +209,8 @@ func h02Body(n int, alphabet string) []byte {
 // column of a multi-line double-quoted string; BODY ranges over the bytes the string reader
 // distinguishes.
 func H02str() {
-	pre := h02Pick("", " ", "\t", "   ", " \t", "\t ", "/**/", "/* c */ ", "'s'+", "'s' + ", "\n ", "/*é*/", "'é\t' +", "x y;\n\t", "// c\n  ")
+	pre := h02Pick("", " ", "\t", "   ", " \t", "\t ", "/**/", "/* c */ ", "'s'+", "'s' + ", "\n ", "/*é*/", "'é\t' +", "x y;\n\t", "// c\n  ",
+		"    /* a\nb */ ", "'x\ny' + ", "\t\t'p\n q'+") // skipped text that spans a line break, the quote opening on the line where it ends
 	kw := h02Pick("k", "pattern")
 	sep := h02Pick(" ", "")
 	body := h02Body(param("m"), " \t\n\\nx\"")
@@ -236,6 +237,17 @@ func H02esc() {
 	after := string(h02Body(param("m"), " \tx"))
 	head := h02Pick("a", "", "a ")
 	s := pre + "k \"" + head + "\n" + lead + "\\" + esc + after + "\";"
+	note(s)
+	h02Check(s, 1)
+}
+
+// H02ml: a double-quoted string that opens on the line where a comment or a single-quoted piece
+// spanning a line break ends: the strip column is the quote's column on ITS line. The
+// continuation line is LF followed by 7 symbolic bytes over {blank, tab, x}.
+func H02ml() {
+	pre := h02Pick("k /* a\nb */ ", "k 'x\ny' + ", "/* long long comment\n*/k ", "      k 'p\n' +", "k /*\n\n*/\t", "k 'aaaaaaaa\nb'+ 'c' + ")
+	body := "h\n" + string(h02Body(7, " \tx"))
+	s := pre + "\"" + body + "\";"
 	note(s)
 	h02Check(s, 1)
 }
